@@ -158,8 +158,8 @@ static void vp_sig_deliver(int sig)
 		if (f) f->pending[k] = 1; else vp_sig_kernel_pending[k] = 1;
 		return;
 	}
-	if (vp_sa[k].sa_handler == SIG_DFL || vp_sa[k].sa_handler == SIG_IGN) { vp_sig_default_action[k]++; return; }
-	if (vp_sa[k].sa_handler == vp_app_handler) { vp_app_handler(sig); return; }
+	/* function-to-function comparisons first: cbmc cannot fold `handler == (sighandler_t)1` for a real function
+	 * and would fork every delivery into a symbolic "maybe ignored" path */
 #ifdef VP_HAVE_SIGNAL_C
 	if (vp_sa[k].sa_handler == evsig_handler) {
 		int before = vp_pipe_n;
@@ -169,6 +169,8 @@ static void vp_sig_deliver(int sig)
 		return;
 	}
 #endif
+	if (vp_sa[k].sa_handler == vp_app_handler) { vp_app_handler(sig); return; }
+	if (vp_sa[k].sa_handler == SIG_DFL || vp_sa[k].sa_handler == SIG_IGN) { vp_sig_default_action[k]++; return; }
 	VP_ASSERT(0, "sigmodel: a handler is installed that nobody registered");
 }
 #endif
